@@ -188,7 +188,10 @@ class PtnFilterChord(PtnFilter):
             A boolean on filter result
         """
 
-        return data not in self.ar if self.invert_filter else data in self.ar
+        # A row of self.ar must match entirely, `data in self.ar` is True if
+        # any single element matches.
+        contained = bool(np.any(np.all(self.ar == np.asarray(data), axis=1)))
+        return not contained if self.invert_filter else contained
 
     class Option:
         """The methods available to use in fromChord
